@@ -96,11 +96,11 @@ Monitors(r, b) ==
                              \cup (IF Len(trees) >= 1 /\ ShapeS(trees[1]) = ShapeS(r.tree) THEN {}
                                    ELSE {<<"trees_differ">>})
                         ELSE {})
-      c07 == IF r.partial THEN {} ELSE c07all
-      \* the same comparison under partial parse (both parsers ran with the same flag).  On the
-      \* unchanged tree the two already differ on a few records (LR accepts a prefix where GLR
-      \* reports an error), so this is reported as DIVERGENCE, not as a C07 verdict (DESIGN 17, round 14)
-      c07p == IF r.partial /\ c07all # {} THEN {<<"partial_lr_glr", c07all>>} ELSE {}
+      \* partial parse included: both parsers ran with the same flag.  On the unchanged tree the two
+      \* differ where a head keeps a token recognised in the state BEFORE a reduction (LALR-merged
+      \* lookahead) and the state after it expects only STOP: LR lexes again and stops, GLR reports an
+      \* error -- known finding C07-F1 (matched by signature in known_findings.json, not excused here)
+      c07 == c07all
       expOff == IF vl < Len(w) THEN r.lex[vl + 1][1] ELSE Len(r.bytes)
       anylex == "anylex" \in DOMAIN r.meta /\ r.meta.anylex
       c12 == IF r.gres.k # "err" \/ r.partial \/ ~meta.plain \/ ~Reduced(T, C.P) \/ islat \/ anylex THEN {}
@@ -155,7 +155,7 @@ Monitors(r, b) ==
                              THEN {<<"partial_loses_tree">>} ELSE {})
                   ELSE {})
   IN [cyclic |-> cyc, opdiv |-> opdiv, opmodel |-> model, c03 |-> c03, c07 |-> c07, c12 |-> c12, c13 |-> c13, c15 |-> c15,
-      c14 |-> c14, gp |-> gp \cup ambdiv \cup c07p, amb |-> f.amb,
+      c14 |-> c14, gp |-> gp \cup ambdiv, amb |-> f.amb,
       sent |-> sent, ok |-> gok, n |-> f.n, nexp |-> nexp, inscope |-> inScope, ntok |-> Len(w),
       lrran |-> lrran]
 
